@@ -47,7 +47,8 @@ from psyclone.psyGen import Transformation
 from psyclone.psyir.nodes import (Call, CodeBlock, IfBlock, Loop, Routine,
                                   Schedule, ACCEnterDataDirective,
                                   ACCKernelsDirective, ACCParallelDirective,
-                                  Node, IntrinsicCall, ACCUpdateDirective)
+                                  Node, IntrinsicCall, ACCRoutineDirective,
+                                  ACCUpdateDirective)
 from psyclone.psyir.tools.call_tree_utils import CallTreeUtils
 from psyclone.psyir.transformations import TransformationError
 
@@ -94,7 +95,7 @@ class ACCUpdateTrans(Transformation):
 
     '''
     # Tuple of OpenACC directives we ignore when traversing a schedule.
-    _ACC_IGNORE = (ACCEnterDataDirective, )
+    _ACC_IGNORE = (ACCEnterDataDirective, ACCRoutineDirective)
     # Tuple of OpenACC compute directives delimiting possible device execution.
     _ACC_COMPUTE = (ACCParallelDirective, ACCKernelsDirective)
 
@@ -438,6 +439,11 @@ class ACCUpdateTrans(Transformation):
             direction = "host"
             if update_pos is None:
                 update_pos = 0
+                # An 'acc routine' directive belongs to the specification
+                # part and must stay ahead of any executable directive.
+                while (update_pos < len(sched.children) and
+                       isinstance(sched[update_pos], ACCRoutineDirective)):
+                    update_pos += 1
         elif mode == OUT:
             direction = "device"
             if update_pos is None:
